@@ -163,8 +163,18 @@ class NetBatch:
            returns the python trace (list of value vectors, index 0 = null wire)"""
         import py4hw
         sim = sim if sim is not None else sys_obj.getSimulator()
+        sched = None
         try:
             d = Dump(sys_obj, sim)
+            try:
+                sched = d.schedule_lines(order, drivers)
+            except Exception as e_:
+                # the simulator's scheduling structures no longer have the shape the importer reads (e.g. clock domains not keyed
+                # by ClockDriver objects): the tie to the model is broken, the implementation is still driven for the oracles
+                msg = f'simulator schedule cannot be imported: {type(e_).__name__}: {str(e_)[:120]}'
+                if not any(b[2] == msg for b in self.res.broken):
+                    self.res.broken.append(('correspondence', self.stream, msg))
+                raise NotDumpable('schedule')
         except NotDumpable as e:
             # a leaf the translator does not cover (or no longer covers): the model leg is skipped, the implementation
             # is still driven so that the caller's oracle (extra_check) runs on it
@@ -181,7 +191,7 @@ class NetBatch:
                     extra_check(d, sim)
             return trace
         start = len(self.lines)
-        self.lines += d.lines + d.schedule_lines(order, drivers) + ['begin', 'vals']
+        self.lines += d.lines + sched + ['begin', 'vals']
         trace = [d.values()]
         for op in ops:
             if op[0] == 'poke':
